@@ -38,9 +38,9 @@ def gen_menu(method):
     out = []
     if method in ('central', 'forward', 'backward'):
         for bs in (0.25, 0.02):
-            for ns in (15, 25):
-                for sr in (2, 1.6, 3):
-                    out.append(('Max', dict(base_step=bs, num_steps=ns, step_ratio=sr)))
+            for sr in (2, 1.6, 3):
+                out.append(('Max', dict(base_step=bs, num_steps=15, step_ratio=sr)))
+        out.append(('Max', dict(base_step=0.25, num_steps=25, step_ratio=2)))
     else:
         for ne in (2, 5):
             out.append(('Min', dict(num_extrap=ne)))
